@@ -53,8 +53,9 @@ Proof.
     change (c0 :: c1 :: c2 :: c3 :: c4 :: c5 :: c6 :: c7 :: c8 :: c9 :: c10 :: c11 :: c12 :: c13 ::
             c14 :: c15 :: c16 :: c17 :: c18 :: c19 :: p)
       with ([c0; c1; c2; c3; c4; c5; c6; c7; c8; c9; c10; c11; c12; c13; c14; c15; c16; c17; c18; c19] ++ p) end.
-  unfold mldrec_parse, mldrec_num_srcs_, mldrec_mcast_addr, mldrec_record_type, mldrec_aux_data_len,
-    mldrec_payload_, wb_get_u16, wb_field. zfold.
+  unfold mldrec_parse, mldrec_check_len, mldrec_num_srcs_, mldrec_mcast_addr, mldrec_record_type,
+    mldrec_aux_data_len, mldrec_payload_, wb_get_u16, wb_field. zfold.
+  pose proof (blen_nonneg p) as Hp. autorewrite with blen. zfold. zbool. cbn [obind].
   hstep. hstep. hstep. hstep. rewrite be_dec_cells2 by lia.
   rewrite wb_from_tail by reflexivity. reflexivity.
 Qed.
@@ -83,7 +84,7 @@ Qed.
 
 Lemma mldrec_accessors_safe bs : mldrec_check_len bs = Ok tt ->
   mldrec_record_type bs <> Panic /\ mldrec_aux_data_len bs <> Panic /\ mldrec_num_srcs_ bs <> Panic /\
-  mldrec_mcast_addr bs <> Panic /\ mldrec_payload_ bs <> Panic /\ mldrec_parse bs <> Panic.
+  mldrec_mcast_addr bs <> Panic /\ mldrec_payload_ bs <> Panic.
 Proof.
   intros H. apply mldrec_check_len_inv in H.
   assert (A1 : mldrec_record_type bs <> Panic) by (apply wb_get_u8_nopanic; zfold; lia).
@@ -91,16 +92,24 @@ Proof.
   assert (A3 : mldrec_num_srcs_ bs <> Panic) by (apply wb_get_be_nopanic; zfold; lia).
   assert (A4 : mldrec_mcast_addr bs <> Panic) by (destruct (mldrec_mcast_addr_ok bs H) as [-> _]; discriminate).
   assert (A5 : mldrec_payload_ bs <> Panic) by (apply wb_from_nopanic; zfold; lia).
-  repeat split; try assumption. unfold mldrec_parse. nopanic.
+  repeat split; assumption.
+Qed.
+
+Lemma mldrec_parse_total bs : mldrec_parse bs <> Panic.
+Proof.
+  unfold mldrec_parse. destruct (mldrec_check_len bs) as [[]| |] eqn:E; cbn [obind]; try discriminate.
+  - destruct (mldrec_accessors_safe bs E) as (A1 & A2 & A3 & A4 & A5). nopanic.
+  - revert E. unfold mldrec_check_len. case_if; discriminate.
 Qed.
 
 (* a parsed record satisfies the proviso as soon as its address is a multicast address (the
    one thing AddressRecordRepr::parse does not look at and set_mcast_addr asserts) *)
-Lemma mldrec_parse_wf bs r : bytes_ok bs = true -> mldrec_check_len bs = Ok tt ->
+Lemma mldrec_parse_wf bs r : bytes_ok bs = true ->
   mldrec_parse bs = Ok r -> ipv6_addr_is_multicast (mldrec_addr r) = true -> mldrec_wf r = true.
 Proof.
-  intros Hb Hc H Hm. apply mldrec_check_len_inv in Hc.
-  unfold mldrec_parse in H.
+  intros Hb H Hm. unfold mldrec_parse in H.
+  destruct (mldrec_check_len bs) as [[]| |] eqn:Hc; cbn [obind] in H; try discriminate.
+  apply mldrec_check_len_inv in Hc.
   destruct (wb_get_u16_ok' bs wicmpv6_f_RECORD_NUM_SRCS) as (n & Hn & Rn); try (zfold; lia); try assumption.
   destruct (mldrec_mcast_addr_ok bs Hc) as [Ha La].
   unfold mldrec_num_srcs_, mldrec_record_type, mldrec_aux_data_len, mldrec_payload_ in H.
@@ -461,13 +470,13 @@ Proof.
   rewrite Hc in Hp. eauto.
 Qed.
 
-Lemma mldrec_reparse bs r : bytes_ok bs = true -> mldrec_check_len bs = Ok tt ->
+Lemma mldrec_reparse bs r : bytes_ok bs = true ->
   mldrec_parse bs = Ok r -> ipv6_addr_is_multicast (mldrec_addr r) = true ->
   mldrec_wf r = true /\
   forall b, blen b = mldrec_buffer_len r ->
     exists bs', mldrec_emit r b = Ok bs' /\ mldrec_parse (bs' ++ mldrec_payload r) = Ok r.
 Proof.
-  intros Hb Hc H Hm. pose proof (mldrec_parse_wf bs r Hb Hc H Hm) as Hwf. split; [assumption|].
+  intros Hb H Hm. pose proof (mldrec_parse_wf bs r Hb H Hm) as Hwf. split; [assumption|].
   intros b Hlen. destruct (mldrec_roundtrip r b Hwf Hlen) as (bs' & He & _ & Hp). eauto.
 Qed.
 
